@@ -214,13 +214,13 @@ struct SerializationHelper {
   inline size_t static calculate_serialized_size_field(
       uint32_t tag_size, const T& value, C& field_cache) noexcept {
     auto size = SerializeTraits<T>::calculate_serialized_size(value);
+    // 尝试填充外部缓存
+    field_cache = size;
+
     // 空成员不参与序列化
     if (size == 0) {
       return 0;
     }
-
-    // 尝试填充外部缓存
-    field_cache = size;
 
     if CONSTEXPR_SINCE_CXX17 (SerializeTraits<T>::WIRE_TYPE ==
                               WireFormatLite::WIRETYPE_LENGTH_DELIMITED) {
